@@ -134,3 +134,35 @@ LEVEL["C20"] = ("Writer/reader sibling agreement for the low-level containers: S
                 "varint/delta mirror constants.")
 NOTE["C20"] = ("Not decided: the algebraic set laws on data (e.g. BitSet._logic), growable-array thresholds, base85. The "
                "interface gaps of MultiIdSet/ReverseIdSet/RoaringIdSet/OnDiskBitSet are known findings.")
+
+# ---- second session: additions to the texts above ----
+_ADD_LEVEL = {
+    "C01": " Added: InverseMatcher and NestedChildMatcher never rest on a document their deletion predicate rejects "
+           "(typestate over _find_next / next), term-range clusivity (a lexicon term is dropped only for the documented "
+           "reasons, judged per incoming path), MultiMatcher.skip_to re-tests the target after switching segment, query "
+           "objects are immutable (no state leaks from one segment to the next).",
+    "C03": " Added: read APIs keep no per-call state on the shared reader object (reviewed table of lazy caches).",
+    "C04": " Added: lock operations never unlink/rename the lock file; AsyncWriter binds its writer only in the constructor.",
+    "C06": " Added: every path of every commit() to _commit_toc finalized/assembled the current segment or established "
+           "that nothing was added.",
+    "C08": " Added: per-document buffers are fresh at the start of every document.",
+    "C10": " Added: postings are inlined only if nothing of the term was written; add_posting flushes a full block before "
+           "recording anything of the new posting; every array read/write path byteswaps (C20-R1).",
+    "C11": " Added: whole blocks are skipped by id only when the target lies strictly beyond them; MultiMatcher.skip_to / "
+           "max_quality cover all remaining sub-matchers.",
+    "C14": " Added: the reverse flag is consulted on every path of column_reader; page offsets derive from the clamped page number; "
+           "the filter collector's two code paths apply one predicate (compared as functions of the global docnum).",
+    "C15": " Added: queries are immutable (no method outside the constructor writes to self), replace() substitutes only under "
+           "field and text equality in every sibling, binary operators' NullQuery cases are evaluated path by path against a table.",
+    "C16": " Added: calls into a field's text analysis are dominated by the preconditions derived from FieldType.tokenize/"
+           "process_text or fenced; group nodes never index self.nodes[k] without a size test, contain no assert and never wrap a "
+           "missing sub-query; the two bounds of a range are analysed independently.",
+    "C17": " Added: a pickled analysis component keeps every configured attribute or rebuilds it unconditionally.",
+    "C20": " Added: the hash probe loop advances on every iteration; array byte order on every path.",
+}
+for _k, _v in _ADD_LEVEL.items():
+    LEVEL[_k] = LEVEL[_k] + _v
+for _k in list(NOTE):
+    NOTE[_k] = NOTE[_k] + (" All rules are invariant under the ten behaviour-preserving whole-tree transformations of tools/robust.py "
+                           "and silent on the 78 confirmed refactorings under benign/ (thorough tier); detection of an unseen "
+                           "regression was 33% in the last independent seeding round before the rules were strengthened (DESIGN.md C2).")
